@@ -63,6 +63,18 @@ theorem Step.refl (P : Prog) (f : Nat) (st : St) : Step P f st st [] [] where
   nodup := List.nodup_nil
   adq := by intros; rfl
 
+theorem Step.noop (P : Prog) (f : Nat) (st : St) (roots : List Name)
+    (hr : ∀ r ∈ roots, r ∈ st.vis ∨ find P r = none) : Step P f st st roots [] where
+  ext := rfl
+  oofMono := id
+  rootsIn := fun _ => hr
+  closedNew := by intro _ m hm; cases hm
+  least := by intro _ _ _ m hm; cases hm
+  errs := by simp
+  fresh := by intro m hm; cases hm
+  nodup := List.nodup_nil
+  adq := by intros; rfl
+
 theorem Step.vis_nodup {P f st st' roots new} (h : Step P f st st' roots new)
     (hn : st.vis.Nodup) : st'.vis.Nodup := by
   rw [h.ext]
@@ -175,15 +187,13 @@ theorem load_step (P : Prog) : ∀ (f : Nat) (st : St) (n : Name),
     · refine ⟨[], ?_⟩
       have : load P 0 st n = st := by simp [load, hv]
       rw [this]
-      exact { Step.refl P 0 st with
-        rootsIn := by intro _ r hr; simp at hr; subst hr; exact Or.inl hv }
+      exact Step.noop P _ st [n] (by intro r hr; simp at hr; subst hr; exact Or.inl hv)
     · cases hs : find P n with
       | none =>
         refine ⟨[], ?_⟩
         have : load P 0 st n = st := by simp [load, hv, hs]
         rw [this]
-        exact { Step.refl P 0 st with
-          rootsIn := by intro _ r hr; simp at hr; subst hr; exact Or.inr hs }
+        exact Step.noop P _ st [n] (by intro r hr; simp at hr; subst hr; exact Or.inr hs)
       | some s =>
         refine ⟨[], ?_⟩
         have : load P 0 st n = { st with oof := true } := by simp [load, hv, hs]
@@ -215,24 +225,28 @@ theorem load_step (P : Prog) : ∀ (f : Nat) (st : St) (n : Name),
     · refine ⟨[], ?_⟩
       have : load P (f + 1) st n = st := by simp [load, hv]
       rw [this]
-      exact { Step.refl P (f + 1) st with
-        rootsIn := by intro _ r hr; simp at hr; subst hr; exact Or.inl hv }
+      exact Step.noop P _ st [n] (by intro r hr; simp at hr; subst hr; exact Or.inl hv)
     · cases hs : find P n with
       | none =>
         refine ⟨[], ?_⟩
         have : load P (f + 1) st n = st := by simp [load, hv, hs]
         rw [this]
-        exact { Step.refl P (f + 1) st with
-          rootsIn := by intro _ r hr; simp at hr; subst hr; exact Or.inr hs }
+        exact Step.noop P _ st [n] (by intro r hr; simp at hr; subst hr; exact Or.inr hs)
       | some s =>
         obtain ⟨new1, h1⟩ := fold_step P f (ih) s.deps { st with vis := n :: st.vis }
         -- the state after the dependencies, before the error is appended
-        generalize hst1 : s.deps.foldl (load P f) { st with vis := n :: st.vis } = st1 at h1
+        have hload0 : load P (f + 1) st n =
+            (match s.err with
+             | none => s.deps.foldl (load P f) { st with vis := n :: st.vis }
+             | some e => { s.deps.foldl (load P f) { st with vis := n :: st.vis } with
+                 errs := e :: (s.deps.foldl (load P f) { st with vis := n :: st.vis }).errs }) := by
+          simp only [load, hv, hs, if_false]
+          cases s.err <;> rfl
+        generalize hst1 : s.deps.foldl (load P f) { st with vis := n :: st.vis } = st1 at h1 hload0
         have hload : load P (f + 1) st n =
             (match s.err with
              | none => st1
-             | some e => { st1 with errs := e :: st1.errs }) := by
-          simp [load, hv, hs, hst1]
+             | some e => { st1 with errs := e :: st1.errs }) := hload0
         have hvis : (load P (f + 1) st n).vis = st1.vis := by
           rw [hload]; cases s.err <;> rfl
         have hoof : (load P (f + 1) st n).oof = st1.oof := by
@@ -270,8 +284,7 @@ theorem load_step (P : Prog) : ∀ (f : Nat) (st : St) (n : Name),
               simp [errOf, hs, List.filterMap_cons]
               cases s.err <;> simp
             rw [hn, List.append_assoc]
-            exact (List.Perm.append_left _ e1).trans List.perm_middle.symm |>.trans (by
-              rw [List.append_assoc])
+            exact (List.Perm.append_left _ e1).trans (List.perm_append_comm_assoc _ _ _)
           fresh := by
             intro m hm
             rcases List.mem_append.mp hm with hm | hm
@@ -380,11 +393,11 @@ theorem C08_sorted_iteration_deterministic (P : Prog) (π₁ π₂ fixed : List 
     unfold sortNames
     apply List.Perm.eq_of_pairwise (le := fun a b => decide (a ≤ b) = true)
     · intro a b _ _ h1 h2
-      simp at h1 h2; omega
-    · exact List.pairwise_mergeSort (by intro a b c h1 h2; simp at *; omega)
-        (by intro a b; simp; omega) π₁
-    · exact List.pairwise_mergeSort (by intro a b c h1 h2; simp at *; omega)
-        (by intro a b; simp; omega) π₂
+      simp at h1 h2; exact Nat.le_antisymm h1 h2
+    · exact List.pairwise_mergeSort (by intro a b c h1 h2; simp at *; exact Nat.le_trans h1 h2)
+        (by intro a b; simp; exact Nat.le_total a b) π₁
+    · exact List.pairwise_mergeSort (by intro a b c h1 h2; simp at *; exact Nat.le_trans h1 h2)
+        (by intro a b; simp; exact Nat.le_total a b) π₂
     · exact (List.mergeSort_perm π₁ _).trans (hp.trans (List.mergeSort_perm π₂ _).symm)
   rw [hs]
 
@@ -407,7 +420,8 @@ theorem C08_append_order_depends_on_pi :
     declOut witApp (run witApp [2, 3] [0, 1]) ≠ declOut witApp (run witApp [3, 2] [0, 1]) ∧
     declOut witApp (run witApp (sortNames [2, 3]) [0, 1]) =
       declOut witApp (run witApp (sortNames [3, 2]) [0, 1]) := by
-  decide
+  refine ⟨by decide, ?_⟩
+  rw [C08_sorted_iteration_deterministic witApp [2, 3] [3, 2] [0, 1] (List.Perm.swap 3 2 [])]
 
 /-! ### Non-vacuity: a program with on-demand loading, a cycle, an unknown name and errors -/
 
